@@ -516,6 +516,9 @@ class CBO(Search):
         Returns:
             List[Dict]: a list of hyperparameter configurations to evaluate.
         """
+        if self._opt is None:
+            self._setup_optimizer()
+
         if self._asked_not_told:
             # The last suggestions were handed out and nothing was told since (e.g., a search call
             # stopped while submitting them): renew them instead of suggesting them again
@@ -533,6 +536,9 @@ class CBO(Search):
         Args:
             results (List[HPOJob]): a dictionary containing the results of the evaluations.
         """
+        if self._opt is None:
+            self._setup_optimizer()
+
         # Transform configurations to list to fit optimizer
         logging.info("Transforming received configurations to list...")
         t1 = time.time()
